@@ -542,7 +542,8 @@ func c17StorageRun(r *Rng, it int, vInit, aInit []byte, viol func(kind, what str
 	inSeq0 := seq0
 	if shifted {
 		off = uint64(r.Pick(9000, 45000, 90000)) // decode times 0.1 .. 1 s after a segment boundary (90 kHz)
-		inSeq0 = uint32(r.Pick(8090, 300, 77))
+		// (also incoming numbers next to the numbers the times imply: the old and the new numbering overlap)
+		inSeq0 = uint32(r.Pick(8090, 300, 77, int(seq0)+1, int(seq0)+2, int(seq0)+3, int(seq0)+7))
 	}
 	type trk struct {
 		name, ext string
@@ -697,7 +698,10 @@ func c17StorageRun(r *Rng, it int, vInit, aInit []byte, viol func(kind, what str
 			// numbers in the range of the incoming numbering of a shifted channel: stored before the shift was known
 			var leftover, window []int
 			for n := range stored[t.name] {
-				if shifted && n >= int(inSeq0) && n < int(inSeq0)+nSegs {
+				// (when the incoming numbers overlap the numbers the times imply, a stored number says nothing about the
+				// numbering it was stored under: everything counts as window then)
+				overlap := int(inSeq0) < int(seq0)+nSegs+2 && int(inSeq0)+nSegs > int(seq0)
+				if shifted && !overlap && n >= int(inSeq0) && n < int(inSeq0)+nSegs {
 					leftover = append(leftover, n)
 				} else {
 					window = append(window, n)
